@@ -182,7 +182,7 @@ EXPORT errno_t _mbstowcs_s_chk(size_t *restrict retvalp, wchar_t *restrict dest,
     orig_dest = dest;
     errno = 0;
 
-    *retvalp = mbstowcs(dest, src, len);
+    *retvalp = mbstowcs(dest, src, (dest && len > dmax) ? dmax : len);
 
     if (likely(*retvalp < dmax)) {
         if (dest) {
